@@ -453,6 +453,12 @@ def length(a):
         return ('const', len(a[1]))
     if tag == 'arr':
         return length(a[1])
+    if tag == 'gamma':
+        la, lb = length(a[2]), length(a[3])
+        if la == lb:
+            return la                   # either branch has the same number of elements
+        if la[0] != 'len' and lb[0] != 'len':
+            return gamma(a[1], la, lb)
     if tag == 'map':
         return keylen(a[1])
     if tag == 'call' and a[1] in ('zeros', 'ones', 'full') and a[2] and a[2][0][0] != 'tuple':
@@ -599,9 +605,18 @@ def _surely_different(a, b):
     return any(_surely_different(x, y) for x, y in zip(a[1], b[1]))
 
 
+def _is_count(t):
+    return t[0] in ('len', 'nrows') or (t[0] == 'call' and t[1] == 'count')
+
+
 def cmp_(op, a, b):
     if op in FLIP:
         op, a, b = FLIP[op], b, a
+    # a count is a non-negative integer: n > 0, n >= 1 are "not n == 0"; 0 >= n, 1 > n are "n == 0"
+    if (op == 'Gt' and _is_count(a) and b == ('const', 0)) or (op == 'GtE' and _is_count(a) and b == ('const', 1)):
+        return not_(cmp_('Eq', a, ('const', 0)))
+    if (op == 'GtE' and _is_count(b) and a == ('const', 0)) or (op == 'Gt' and _is_count(b) and a == ('const', 1)):
+        return cmp_('Eq', b, ('const', 0))
     if op in ('Gt', 'GtE', 'Eq', 'NotEq') and isnum(a) and isnum(b):
         r = {'Gt': a[1] > b[1], 'GtE': a[1] >= b[1], 'Eq': a[1] == b[1], 'NotEq': a[1] != b[1]}[op]
         return ('const', r)
@@ -790,6 +805,8 @@ def gamma(c, a, b):
         return a
     if c[0] == 'not':
         return gamma(c[1], b, a)
+    if c[0] == 'and' and len(c[1]) > 1 and all(x[0] == 'not' for x in c[1]):
+        return gamma(or_([x[1] for x in c[1]]), b, a)           # De Morgan: `x if (not p and not q) else y` is `y if (p or q) else x`
     # a conditional between two dictionaries with the same keys is the dictionary of the conditionals (d[k] = v under a condition)
     if a[0] == 'dict' and b[0] == 'dict' and len(a) == 2 and len(b) == 2 and [k for k, _ in a[1]] == [k for k, _ in b[1]]:
         return ('dict', tuple((k, gamma(c, va, vb)) for (k, va), (_, vb) in zip(a[1], b[1])))
@@ -859,6 +876,11 @@ def arr_store(cur, k, v, g):
                 stores, v, g = stores[:-1], gamma(x, v0, v), and_(a & b)
                 merged = True
                 continue
+        if g0 != TRUE and (not_(g0) == g or not_(g) == g0):
+            # the same place stored under a compound condition and under its negation (a guarded store followed by `continue`, then the fallback store)
+            stores, v, g = stores[:-1], gamma(g0, v0, v), TRUE
+            merged = True
+            continue
         break
     if merged:
         cur = ('arr', init, stores) if stores else init
@@ -950,6 +972,10 @@ def subst(t, f):
     def go(x):
         if not isinstance(x, tuple):
             return x
+        if len(x) == 2 and x[0] == 'const':
+            # never memoised: ('const', 1) and ('const', True) are equal as dictionary keys, and a rewrite that produces True must not turn a 1 into True
+            r = f(x)
+            return x if r is None else r
         if x in memo:
             return memo[x]
         if x and isinstance(x[0], str):
@@ -994,6 +1020,16 @@ def renorm(y):
             return bor(y[1])
         if tag == 'gamma':
             return gamma(y[1], y[2], y[3])
+        if tag == 'not':
+            return not_(y[1])
+        if tag == 'arr' and len(y) == 3:
+            # stores whose guard has been decided: a false guard never stores, the rest are replayed (so that complementary stores merge)
+            cur = y[1]
+            for k_, v_, g_ in y[2]:
+                if g_ == FALSE:
+                    continue
+                cur = arr_store(cur, k_, v_, g_)
+            return cur
         if tag == 'call':
             if y[1] in ('min', 'max', 'nanmin', 'nanmax') and len(y[2]) == 1 and y[2][0][0] in ('tuple', 'list'):
                 return ('call', y[1], ((y[2][0][0], sort_terms(y[2][0][1])),), y[3])
@@ -1029,6 +1065,11 @@ def parity_slice(fm):
             c = cc
         if cond == not_(cmp_('Eq', ('mod', lv, ('const', 2)), ('const', cc))):
             c = 1 - cc                      # an index is odd exactly when it is not even
+    m2 = ('mod', lv, ('const', 2))
+    if cond == m2:
+        c = 1                               # truthiness of i % 2: the odd positions
+    if cond == not_(m2):
+        c = 0
     if c is None:
         return None
     srcs = {x for x in walk(elt) if x[0] == 'idx' and x[2] == lv}
